@@ -1,0 +1,296 @@
+//! Verification hook H1 (guard: cfg(kani)). Not compiled in any ordinary build.
+//!
+//! std's `HashMap` cannot be executed symbolically by Kani 0.68 (hashbrown's SIMD group
+//! probing), so under `cfg(kani)` the crate's maps are replaced by this model, which
+//! implements the subset of the map API the crate uses. Register-keyed maps are a dense
+//! array, all other keys an association list. See /verif/DESIGN.md section 3.
+pub(crate) use self::model::{HashMap, HashSet};
+
+pub(crate) mod model {
+    use serde::{Deserialize, Deserializer, Serialize, Serializer};
+    use crate::state::registers::SupportedRegister;
+
+    pub(crate) const SLOTS: usize = 86;
+    const _: () = assert!(SupportedRegister::XMM15 as usize == SLOTS - 1);
+
+    pub trait Storage<K, V>: Default {
+        fn s_len(&self) -> usize;
+        fn s_get(&self, k: &K) -> Option<&V>;
+        fn s_get_mut(&mut self, k: &K) -> Option<&mut V>;
+        fn s_insert(&mut self, k: K, v: V) -> Option<V>;
+        fn s_nth(&self, i: usize) -> Option<(K, &V)>;
+        fn s_cap(&self) -> usize;
+    }
+
+    /// Only register-keyed maps are dense; a dense array for every map type explodes
+    /// drop glue (64 k VCCs, 6.5 M SAT variables for a trivial harness).
+    pub trait MapKey: PartialEq + Clone + Sized {
+        type Store<V>: Storage<Self, V>;
+    }
+    impl MapKey for u64 {
+        type Store<V> = Assoc<u64, V>;
+    }
+    impl MapKey for crate::auto::generated::SupportedMnemonic {
+        type Store<V> = Assoc<crate::auto::generated::SupportedMnemonic, V>;
+    }
+    impl MapKey for SupportedRegister {
+        type Store<V> = Dense<V>;
+    }
+
+    pub struct Dense<V> {
+        pub(crate) slots: [Option<V>; SLOTS],
+    }
+    impl<V> Default for Dense<V> {
+        fn default() -> Self {
+            Self { slots: [const { None }; SLOTS] } // not array::from_fn: that is a loop
+        }
+    }
+    impl<V> Storage<SupportedRegister, V> for Dense<V> {
+        fn s_len(&self) -> usize {
+            let mut n = 0;
+            let mut i = 0;
+            while i < SLOTS {
+                if self.slots[i].is_some() {
+                    n += 1;
+                }
+                i += 1;
+            }
+            n
+        }
+        fn s_get(&self, k: &SupportedRegister) -> Option<&V> {
+            self.slots[*k as usize].as_ref()
+        }
+        fn s_get_mut(&mut self, k: &SupportedRegister) -> Option<&mut V> {
+            self.slots[*k as usize].as_mut()
+        }
+        fn s_insert(&mut self, k: SupportedRegister, v: V) -> Option<V> {
+            std::mem::replace(&mut self.slots[k as usize], Some(v))
+        }
+        fn s_cap(&self) -> usize {
+            SLOTS
+        }
+        fn s_nth(&self, i: usize) -> Option<(SupportedRegister, &V)> {
+            match &self.slots[i] {
+                Some(v) => Some((unsafe { std::mem::transmute::<u8, SupportedRegister>(i as u8) }, v)),
+                None => None,
+            }
+        }
+    }
+
+    pub struct Assoc<K, V> {
+        pub(crate) items: Vec<(K, V)>,
+    }
+    impl<K, V> Default for Assoc<K, V> {
+        fn default() -> Self {
+            Self { items: Vec::new() }
+        }
+    }
+    impl<K: PartialEq + Clone, V> Storage<K, V> for Assoc<K, V> {
+        fn s_len(&self) -> usize {
+            self.items.len()
+        }
+        fn s_get(&self, k: &K) -> Option<&V> {
+            let mut i = 0;
+            while i < self.items.len() {
+                if &self.items[i].0 == k {
+                    return Some(&self.items[i].1);
+                }
+                i += 1;
+            }
+            None
+        }
+        fn s_get_mut(&mut self, k: &K) -> Option<&mut V> {
+            let mut i = 0;
+            while i < self.items.len() {
+                if &self.items[i].0 == k {
+                    return Some(&mut self.items[i].1);
+                }
+                i += 1;
+            }
+            None
+        }
+        fn s_insert(&mut self, k: K, v: V) -> Option<V> {
+            let mut i = 0;
+            while i < self.items.len() {
+                if self.items[i].0 == k {
+                    return Some(std::mem::replace(&mut self.items[i].1, v));
+                }
+                i += 1;
+            }
+            self.items.push((k, v));
+            None
+        }
+        fn s_cap(&self) -> usize {
+            self.items.len()
+        }
+        fn s_nth(&self, i: usize) -> Option<(K, &V)> {
+            self.items.get(i).map(|(k, v)| (k.clone(), v))
+        }
+    }
+
+    pub struct HashMap<K: MapKey, V> {
+        pub(crate) s: K::Store<V>,
+    }
+    impl<K: MapKey, V> Default for HashMap<K, V> {
+        fn default() -> Self {
+            Self { s: Default::default() }
+        }
+    }
+    impl<K: MapKey, V: Clone> Clone for HashMap<K, V> {
+        fn clone(&self) -> Self {
+            let mut m = Self::default();
+            let mut i = 0;
+            while i < self.s.s_cap() {
+                if let Some((k, v)) = self.s.s_nth(i) {
+                    m.s.s_insert(k, v.clone());
+                }
+                i += 1;
+            }
+            m
+        }
+    }
+    impl<K: MapKey, V> std::fmt::Debug for HashMap<K, V> {
+        fn fmt(&self, f: &mut std::fmt::Formatter<'_>) -> std::fmt::Result {
+            f.write_str("HashMap")
+        }
+    }
+    impl<K: MapKey, V: PartialEq> PartialEq for HashMap<K, V> {
+        fn eq(&self, other: &Self) -> bool {
+            if self.len() != other.len() {
+                return false;
+            }
+            let mut i = 0;
+            while i < self.s.s_cap() {
+                if let Some((k, v)) = self.s.s_nth(i) {
+                    match other.get(&k) {
+                        Some(v2) if v2 == v => {}
+                        _ => return false,
+                    }
+                }
+                i += 1;
+            }
+            true
+        }
+    }
+    impl<K: MapKey, V: Eq> Eq for HashMap<K, V> {}
+
+    impl<K: MapKey, V> HashMap<K, V> {
+        pub fn new() -> Self {
+            Self::default()
+        }
+        pub fn len(&self) -> usize {
+            self.s.s_len()
+        }
+        pub fn get(&self, k: &K) -> Option<&V> {
+            self.s.s_get(k)
+        }
+        pub fn get_mut(&mut self, k: &K) -> Option<&mut V> {
+            self.s.s_get_mut(k)
+        }
+        pub fn contains_key(&self, k: &K) -> bool {
+            self.s.s_get(k).is_some()
+        }
+        pub fn insert(&mut self, k: K, v: V) -> Option<V> {
+            self.s.s_insert(k, v)
+        }
+        /// Iteration starts at an arbitrary rotation: the order is nondeterministic, which is
+        /// std's contract. Yields (K, &V), which every use site in the crate accepts.
+        pub fn iter(&self) -> Iter<'_, K, V> {
+            let cap = self.s.s_cap();
+            let rot: usize = if cap == 0 { 0 } else { kani::any_where(|r: &usize| *r < cap) };
+            Iter { m: self, i: 0, rot }
+        }
+        pub fn entry(&mut self, k: K) -> Entry<'_, K, V> {
+            Entry { map: self, key: k }
+        }
+    }
+
+    pub struct Iter<'a, K: MapKey, V> {
+        m: &'a HashMap<K, V>,
+        i: usize,
+        rot: usize,
+    }
+    impl<'a, K: MapKey, V> Iterator for Iter<'a, K, V> {
+        type Item = (K, &'a V);
+        fn next(&mut self) -> Option<Self::Item> {
+            let cap = self.m.s.s_cap();
+            while self.i < cap {
+                let mut idx = self.rot + self.i;
+                if idx >= cap {
+                    idx -= cap;
+                }
+                let r = self.m.s.s_nth(idx);
+                self.i += 1;
+                if r.is_some() {
+                    return r;
+                }
+            }
+            None
+        }
+    }
+
+    pub struct Entry<'a, K: MapKey, V> {
+        map: &'a mut HashMap<K, V>,
+        key: K,
+    }
+    impl<'a, K: MapKey, V> std::fmt::Debug for Entry<'a, K, V> {
+        fn fmt(&self, f: &mut std::fmt::Formatter<'_>) -> std::fmt::Result {
+            f.write_str("Entry")
+        }
+    }
+    impl<'a, K: MapKey, V> Entry<'a, K, V> {
+        pub fn or_insert_with<F: FnOnce() -> V>(self, f: F) -> &'a mut V {
+            if !self.map.contains_key(&self.key) {
+                self.map.insert(self.key.clone(), f());
+            }
+            self.map.get_mut(&self.key).unwrap()
+        }
+        pub fn or_insert(self, v: V) -> &'a mut V {
+            self.or_insert_with(|| v)
+        }
+        pub fn and_modify<F: FnOnce(&mut V)>(self, f: F) -> Self {
+            if let Some(v) = self.map.get_mut(&self.key) {
+                f(v);
+            }
+            self
+        }
+    }
+
+    impl<K: MapKey, V> std::iter::FromIterator<(K, V)> for HashMap<K, V> {
+        fn from_iter<I: IntoIterator<Item = (K, V)>>(iter: I) -> Self {
+            let mut m = HashMap::new();
+            for (k, v) in iter {
+                m.insert(k, v);
+            }
+            m
+        }
+    }
+    impl<K: MapKey, V> Serialize for HashMap<K, V> {
+        fn serialize<S: Serializer>(&self, s: S) -> Result<S::Ok, S::Error> {
+            s.serialize_unit()
+        }
+    }
+    impl<'de, K: MapKey, V> Deserialize<'de> for HashMap<K, V> {
+        fn deserialize<D: Deserializer<'de>>(_d: D) -> Result<Self, D::Error> {
+            Ok(Self::default())
+        }
+    }
+
+    pub struct HashSet<K: MapKey> {
+        m: HashMap<K, ()>,
+    }
+    impl<K: MapKey> HashSet<K> {
+        pub fn contains(&self, k: &K) -> bool {
+            self.m.contains_key(k)
+        }
+    }
+    impl<K: MapKey> std::iter::FromIterator<K> for HashSet<K> {
+        fn from_iter<I: IntoIterator<Item = K>>(iter: I) -> Self {
+            let mut m = HashMap::new();
+            for k in iter {
+                m.insert(k, ());
+            }
+            HashSet { m }
+        }
+    }
+}
